@@ -7,6 +7,14 @@ ROOT = "/verif"
 
 # id -> (technique, level text, level note, design ref)
 CHECKS = {
+ "C06": ("exhaustive enumeration of drop orders (bounded counts) + proptest long sequences + thread-distributed final drops; 15-line reference model of the keep-alive protocol; counting sink with started-flag snapshots",
+         "Model-based: every well-formed sequence of guard/handle/owner creations and drops up to length 8 (quick) / 10 (thorough) is executed on a real #[metrics] entry with append_on_drop, the sink's count compared with the model after every operation; random sequences to length 60; remaining objects dropped by 2-4 racing threads with a generated schedule, the append instant checked against the model condition.",
+         "Arc/Mutex internals run natively; thread placement is sampled. For concurrent drops only a necessary condition (flags set before each drop) is asserted.",
+         "DESIGN.md §2 C06"),
+ "C13": ("exhaustive enumeration of slot op sequences + proptest + two-thread drop races; reference model of wait/discard semantics",
+         "Model-based: all sequences up to length 6 (quick) / 7 (thorough) of open(wait|discard) / mutate / drop guard / drop parent / force-flush / wait_for_data on a real #[metrics] entry with a Slot and a LazySlot; sink count compared after every op and the emitted entry's fields against the model; parent and guards dropped on different threads with generated perturbation.",
+         "tokio oneshot / Arc internals run natively; interleavings sampled.",
+         "DESIGN.md §2 C13"),
  "C01": ("proptest-generated producer scripts + fuel/fault/jitter scripts on real threads; exactly-once / order invariant over a global event log",
          "Schedule- and input-sampling: 1-6 real producer threads run generated op scripts against the real queue and writer thread; stream results, writer progress (fuel gate) and perturbation points are part of the generated case. After shutdown the event log must show every appended entry exactly once, per-producer order, only rate-limited in-band reports as extras.",
          "Interleavings inside crossbeam/std/tokio primitives are sampled natively, not enumerated; absence is not claimed. Trusts the event log (one mutex, linearised).",
